@@ -38,6 +38,12 @@ var kinds = []req{
 	{"taproot-DEFAULT/0", true, 0x00, 0},
 	{"taproot-SINGLE/1", true, 0x03, 1},
 	{"taproot-ACP|ALL/2", true, 0x81, 2},
+	// requests for which BIP341 defines no digest: the answer must be empty, and the
+	// shared object must keep answering the other threads (a lock left held shows up
+	// as "no enabled thread" under the scheduler)
+	{"taproot-undefined-0x04/1", true, 0x04, 1},
+	{"taproot-undefined-0xff/0", true, 0xff, 0},
+	{"taproot-undefined-0x84/2", true, 0x84, 2},
 }
 
 func mkTx() (*reftx.Tx, []reftx.Out) {
@@ -85,7 +91,7 @@ func want(t *reftx.Tx, spent []reftx.Out, k req) []byte {
 	if k.tap {
 		d, ok := refhash.Taproot(t, spent, k.idx, k.ht, nil, nil)
 		if !ok {
-			ev.HarnessError("reference defines no digest for %s", k.name)
+			return nil // no digest defined: the implementation must return an empty answer
 		}
 		return d[:]
 	}
@@ -100,6 +106,9 @@ var assigns = [][3][2]int{
 	{{0, 1}, {2, 0}, {1, 2}},
 	{{0, 5}, {4, 2}, {3, 1}},
 	{{3, 3}, {3, 3}, {0, 0}},
+	{{6, 3}, {0, 6}, {7, 4}},
+	{{6, 7}, {8, 6}, {3, 0}},
+	{{8, 1}, {5, 7}, {6, 6}},
 }
 
 type result struct {
@@ -149,6 +158,7 @@ func main() {
 		wants[i] = want(t, spent, k)
 	}
 	schedules, maxPoints := 0, 0
+	deadlockSeen := false // a leaked lock would make the free-running pass wait forever
 	outcomes := map[string]int{}
 	var samples []interface{}
 	for ai, a := range assigns {
@@ -175,6 +185,7 @@ func main() {
 				key = "panic"
 			case x.Deadlock != "":
 				key = "deadlock"
+				deadlockSeen = true
 			case x.Err != "":
 				key = "digest-differs-under-concurrency"
 			}
@@ -201,7 +212,7 @@ func main() {
 	}
 	// free-running pass under the race detector
 	raceRuns, raceReports := 0, 0
-	if bin := ev.OutDir() + "/bin/c02s-race"; fileExists(bin) {
+	if bin := ev.OutDir() + "/bin/c02s-race"; fileExists(bin) && !deadlockSeen {
 		iters := 200
 		if r.Thorough() {
 			iters = 2000
@@ -235,7 +246,7 @@ func main() {
 		"race_pass_reports":             raceReports,
 		"samples":                       samples,
 		"exhaustive":                    true,
-		"rule":                          "5 assignments of 2 digest requests to each of 3 goroutines sharing one Tx object (BIP143 ALL / SINGLE|ACP / NONE, taproot DEFAULT / SINGLE / ACP|ALL); every interleaving at synchronisation granularity is executed under the controlled scheduler (no bound: the space is complete), every answer must equal the reference digest; plus a free-running -race pass",
+		"rule":                          "8 assignments of 2 digest requests to each of 3 goroutines sharing one Tx object (BIP143 ALL / SINGLE|ACP / NONE, taproot DEFAULT / SINGLE / ACP|ALL, taproot with the undefined hash types 0x04 / 0x84 / 0xff whose answer must be empty); every interleaving at synchronisation granularity is executed under the controlled scheduler (no bound: the space is complete), every answer must equal the reference digest; plus a free-running -race pass",
 	}, []string{"scheduling points are synchronisation operations only; unsynchronised accesses are the race-detector pass's job"})
 }
 
